@@ -231,11 +231,13 @@ __CPROVER_ensures(RET != NULL ==> *objidlength < OLD(*objidlength))
  * so every call site must establish the callee's precondition (in particular the slack).  CALLER_SLACK is the number of
  * readable bytes the caller of snmp_pdu_decode guarantees beyond *Length:
  *   CALLER_SLACK = 6  (target pdu_decode_slack6): every callee precondition is discharged -- 6 bytes of slack suffice;
- *   CALLER_SLACK = 1  (target pdu_decode_slack1): what snmpHandleUdp provides -- the callee preconditions FAIL (finding F5). */
+ *   CALLER_SLACK = CV_REAL_CALLER_SLACK (target pdu_decode_caller): what snmpHandleUdp provides, computed from its text on
+ *   every run; it was 1 (callee preconditions failed: finding F5) until the receive buffer got 8 bytes of slack. */
 #ifdef T_PDU_DECODE
 #include <netinet/in.h>
 #include "snmp_vars.h"
 #include "snmp_pdu.h"
+#include "caller_slack.h"     /* CV_REAL_CALLER_SLACK: generated by gen.py from the text of snmpHandleUdp on this run */
 #ifndef CALLER_SLACK
 #define CALLER_SLACK 6
 #endif
